@@ -23,7 +23,13 @@ WRITTEN in param/parameterized.py:
   * **rejected results** — an awaitable may complete with a value the parameter's `_validate`
     rejects (`Env.rej`): `self_.update` raises inside the task, nothing is stored, no event is sent,
     the `_syncing` scope is left through its `finally`, `_async_ref`'s `finally` removes the
-    registration and the task ends with the exception (the link in `refs` stays).
+    registration and the task ends with the exception (the link in `refs` stays);
+  * **a synchronous reference on the same object** (`assignSync p y`: `obj.p = other.param.x`, `other`
+    a second source object whose `x` holds `y`): `_resolve_ref` resolves it at once, the value is
+    stored, `_update_ref` cancels `p`'s registered task and links `p` — to a reference no task
+    belongs to; `_sync_refs` (run by `bump`, a change of the FIRST source) must step over it
+    (`if not any(dep.owner is e.obj and dep.name == e.name …) and not is_async: continue`) and go on to
+    the asynchronous references behind it in the `refs` dict.
 
 Every function below is the function of the same name in Model.lean with the write replaced by
 `writeH` (write, then the hook) and the still-current check made on the reference id of the task
@@ -171,6 +177,25 @@ def assignPlainH (e : Env) (s : St) (p : Nat) (v : Int) : St :=
   | some s1 => { s1 with last := upd s1.last p (.plain v) }
   | none => s
 
+/-- what `refs[p]` holds while `p` is linked to the synchronous reference: no task is ever numbered so -/
+def syncRef : Nat := 1000000
+
+/-- src: `Parameter.__set__` with a synchronous reference whose current value is `y`: `_resolve_ref`
+returns `(ref, deps, y, False)`; `_validate(y)`, store, `relink()` = `_update_ref(name, ref)` (pops and
+cancels the registered task, installs the link), then the watchers -/
+def assignSyncH (e : Env) (s : St) (p : Nat) (y : Int) : St :=
+  if e.rej y then s
+  else
+    let s1 := updateRef { s with vals := upd s.vals p y } p syncRef
+    let s2 := { s1 with log := s1.log ++ [(p, y)], last := upd s1.last p (.plain y) }
+    match e.hook with
+    | some (a, b, w) =>
+      if p = a then
+        let s3 := plainSet s2 b w
+        { s3 with last := upd s3.last b (.plain w) }
+      else s2
+    | none => s2
+
 /-! ### the extended state and schedule -/
 
 structure StH where
@@ -202,6 +227,7 @@ inductive EventH
   | again (p : Nat)                              -- `obj.p = <the SAME function object as last time>`
   | trigC                                        -- `obj.param.trigger('c')`: runs the watcher of `Env.thook`
   | trigP (p : Nat)                              -- `obj.param.trigger(p)` on a (possibly linked) parameter
+  | assignSync (p : Nat) (y : Int)               -- `obj.p = other.param.x` (a synchronous reference; `other.x == y`)
   deriving Repr, DecidableEq
 
 /-- `async_executor(partial(_async_ref, pname, new_awaitable, ref))` from `_sync_refs` -/
@@ -262,6 +288,11 @@ def applyEventH (c : Cfg) (e : Env) (sh : StH) : EventH → StH
     | none => sh
   -- and triggering a linked parameter re-assigns its current value — a plain value: the link is dropped
   | .trigP p => { sh with core := assignPlainH e sh.core p (sh.core.vals p) }
+  -- `bumpH` steps over the parameter: `spawnRef` finds no task named `syncRef`
+  | .assignSync p y =>
+    let keys := sh.keys
+    { sh with core := assignSyncH e sh.core p y,
+              order := if e.rej y || keys.contains p then keys else keys ++ [p] }
 
 def StH.init (v0 : Int) : StH := { core := St.init v0, order := [], deps := [], refOf := [], fn := [] }
 
